@@ -23,8 +23,11 @@ instance : DecidablePred Terminal.WF := fun t => by
   cases t <;> unfold Terminal.WF <;> infer_instance
 
 /-- the contract of the regexp engine for a user expression: the match length it reports lies inside the
-    bytes it was given (`m = 0`, an empty match, is allowed: reader.go returns an empty non-nil slice and
-    the terminal produces a node of width 0) -/
+    bytes it was given.  `m = 0` is allowed.  reader.go's getPattern panics (once, when the expression is
+    first used) if the expression matches the EMPTY INPUT — that check is a precondition on the expression
+    and is not part of this model (`P.regexp id` stands for an expression that passed it) — but it does not
+    exclude an empty match on a non-empty rest (`\b` on "a" matches with length 0: checked on the real
+    code); ReadRegexp then returns an empty non-nil slice and terminal.Regexp builds a node of width 0. -/
 def Params.LenOk (P : Params) : Terminal → Prop
   | .regexp id _ _ _ => ∀ r m g, P.regexp id r = some (m, g) → m ≤ r.length
   | _ => True
